@@ -448,9 +448,10 @@ def run(R):
                   (stream_voxels, 60 if quick else 600)):
         try:
             fn(R, n)
-        except L.ImplHang:
+        except (L.ImplHang, L.ImplAbort):
             R.violation(f"{fn.__name__}: the implementation did not terminate within the watchdog delay",
                         {"stream": fn.__name__}, {})
+            break
         except Exception:  # noqa: BLE001 - keep the violations found so far reportable
             import traceback
             R.disagree(f"{fn.__name__}: the implementation left the harness in an unexpected state",
@@ -464,8 +465,16 @@ def run(R):
 
 
 def replay(R, payload):
-    case = payload.get("case", {})
+    case = payload.get("case") or {}
+    if not case and payload.get("disagreements"):
+        case = payload["disagreements"][0].get("case") or {}
     before = (len(R.violations), len(R.disagreements))
+    if "grid" in case and "sel" not in case:
+        # hang / fetch report without the chunk list: store the whole grid
+        g = case["grid"]
+        coords = sorted(itertools.product(*[range(k) for k in g]), key=lambda c: L.ref_cmc(g, c))
+        case = dict(case, sel=[list(c) for c in coords],
+                    payloads=[bytes([i % 251]) * (i % 7) for i in range(len(coords))])
     if "sel" in case and "payloads" in case and "grid" in case:
         def unb(v):
             return bytes.fromhex(v[1:]) if isinstance(v, str) else bytes(v)
@@ -483,7 +492,11 @@ def replay(R, payload):
             seq = iter(todo)
             L.gen_dataset = lambda rng, i: ds
             stream_datasets(R, 1)
+        except (L.ImplAbort, L.ImplHang):
+            return True
         finally:
             L.gen_dataset = saved
         return (len(R.violations), len(R.disagreements)) != before
-    return True
+    # other streams (direct MiniShard objects, damaged files, voxels): re-run the whole check
+    run(R)
+    return bool(R.violations or R.disagreements)
